@@ -4,7 +4,7 @@
    transcription of which memory the Go code touches (asserted; sampled by the -race stage). *)
 From Coq Require Import List Arith NArith Bool.
 Import ListNotations.
-From Verif.C16 Require Import Model Proofs.
+From Verif.C16 Require Import Model Proofs Locks.
 
 (* 1. For ANY number of threads and ANY interleaving: if every thread writes only locations it owns and
       touches no location owned by another thread (all its accesses to shared locations are reads),
@@ -53,7 +53,32 @@ Proof. exact Proofs.tmpl_redefine_race_refuted. Qed.
 Theorem cross_runtime_object_rejected : forall r rt, rt <> r -> to_value r (GObject rt) = TVTypeError.
 Proof. exact Proofs.cross_runtime_object_rejected. Qed.
 
-(* non-vacuity: the hypotheses of 1-3 are satisfiable by a real two-runtime execution that shares a
+(* 7. The lockset theorem: in ANY trace that respects mutual exclusion, locations that are only accessed
+      while holding mutex m are never raced on (critical sections are totally ordered by happens-before). *)
+Theorem guarded_no_race : forall tr m (G : loc -> Prop),
+  lock_wf tr ->
+  (forall i t k l v, nth_error tr i = Some (t, Acc k l v) -> G l -> holds tr t m i) ->
+  forall i j, race_at tr i j ->
+  forall t k l v, nth_error tr i = Some (t, Acc k l v) -> ~ G l.
+Proof. exact Locks.guarded_no_race. Qed.
+
+(* 8. What a fix of F14 must achieve: the SAME importedString method bodies (every method, either branch),
+      each executed under one mutex per string, by any number of goroutines, are race-free under every
+      interleaving that respects mutual exclusion. (A sync.Once-based fix is modelled in Model.v
+      [ev_length_once]; its race-freedom is not proved here.) *)
+Theorem imported_race_free_if_locked : forall (s : N) (ths : list (list event)) (tr : trace),
+  (forall t, t < length ths -> exists m seen, nth t ths [] = ev_imethod_locked s m seen) ->
+  interleaving ths tr -> lock_wf tr -> ~ race tr.
+Proof. exact Locks.imported_race_free_if_locked. Qed.
+
+(* non-vacuity of 8: a mutual-exclusion-respecting, value-consistent two-goroutine schedule exists *)
+Example locked_schedule_nonvacuous :
+  let ths := [ev_imethod_locked 0 IEnsureThenU false; ev_imethod_locked 0 IEnsureThenU true] in
+  let tr := map (pair 0) (nth 0 ths []) ++ map (pair 1) (nth 1 ths []) in
+  interleaving ths tr /\ lock_wf tr /\ consistent tr.
+Proof. exact Locks.locked_schedule_nonvacuous. Qed.
+
+(* non-vacuity of 1-3: the hypotheses are satisfiable by a real two-runtime execution that shares a
    Program with a regexp literal, a tagged template and a shared unicode string *)
 Example shared_run_nonvacuous :
   let ops := [OFetch; ONewRegexp 1; ORegexExec 1; OTaggedTmpl 2; OTmplRead 2 false 0; OEnterFunc 3 true; OEvalBindVar] in
@@ -69,3 +94,5 @@ Print Assumptions primitive_share.
 Print Assumptions imported_race_refuted.
 Print Assumptions tmpl_redefine_race_refuted.
 Print Assumptions cross_runtime_object_rejected.
+Print Assumptions guarded_no_race.
+Print Assumptions imported_race_free_if_locked.
